@@ -124,6 +124,9 @@ def rule_pred(ctx):
   for e in w.events:
     if e.kind == "return" and isinstance(e.data["value"], Const) and e.data["value"].v is True:
       tru.append([(c, pol) for c, pol, node in e.state.pc])
+    elif e.kind == "return" and isinstance(e.data["value"], tuple):
+      # `return <condition>`: valid exactly when the condition holds on this path
+      tru.append([(c, pol) for c, pol, node in e.state.pc] + [(e.data["value"], True)])
     elif e.kind == "return" and not (isinstance(e.data["value"], Const) and e.data["value"].v is False):
       ctx.incomplete(R, f.where, "return", "non-constant return %r" % (e.data["value"],))
   x, y = sym.mk("idx", p, Poly.const(0)), sym.mk("idx", p, Poly.const(1))
